@@ -25,7 +25,7 @@ let parse_doc_hex (h : string) : doc option =
 
 let cut s = if String.length s > 400 then String.sub s 0 400 ^ "..." else s
 
-let string_of_srcerr = function SParse b -> if b then "parse-eof" else "parse" | STooLong -> "too-long" | SRead -> "read"
+let string_of_srcerr = function SParse -> "parse" | STooLong -> "too-long" | SRead b -> if b then "read(eof-caused)" else "read"
 let string_of_jerr = function
   | JInvalid -> "invalid-options" | JAbort -> "aborted" | JSrc k -> "source:" ^ string_of_srcerr k
   | JAdd _ -> "add-refused" | JResolve -> "resolve"
@@ -59,9 +59,9 @@ let () =
     List.iter (fun (_, tok, p) ->
         if tok <> "-" then
           let v = match p with
-            | "malformed" -> PBad false
-            | "eoferr" -> incr eof_parse; PBad true
-            | h -> (match parse_doc_hex h with Some d -> PDoc d | None -> bad_table := true; PBad false) in
+            | "malformed" -> PBad
+            | "eoferr" -> incr eof_parse; PBad   (* the library's error is io.EOF; the source sends a new error all the same *)
+            | h -> (match parse_doc_hex h with Some d -> PDoc d | None -> bad_table := true; PBad) in
           Hashtbl.replace tbl tok v) lines;
     let parse (tok : bytes) : pres =
       let h = hex_of_bytes tok in
@@ -131,7 +131,7 @@ let () =
       let schema_change =
         let sk = List.filter_map (fun (_, d) -> match d with Some d -> Some (hex_of_bytes (enc_doc (List.map (fun (k, _) -> (k, VNull)) (strip_doc d)))) | None -> None) olines in
         (match sk with [] -> false | h :: r -> List.exists (fun x -> x <> h) r) in
-      if nl >= 3 && (badline || boundary || schema_change) then incr nontriv
+      if nl >= 3 && (badline || boundary || schema_change) then begin incr nontriv; Printf.printf "NT %s\n" id end
     end in
 
   (* ---------------------------------------------------------------- runtime *)
@@ -183,7 +183,7 @@ let () =
                    (String.concat " " (List.map (fun (_, derr, ids, _) -> (if derr then "ERR" else "") ^
                        (match ids with Some l -> "[" ^ String.concat "," (List.map string_of_int l) ^ "]" | None -> "[?]")) files)) line end;
                if List.length (List.filter (fun (_, _, ids, _) -> match ids with Some (_ :: _) -> true | _ -> false) files) >= 2 then begin
-                 incr rt_multi; incr nontriv end
+                 incr rt_multi; incr nontriv; Printf.printf "NT %s\n" id end
              end
          | _ -> failwith "bad RT rhs")
     | _ -> failwith "bad RT line" in
